@@ -207,6 +207,10 @@ class _Cmp:
         if name not in od or index not in od:
             return self.bad("lookup/contains", f"{name!r} / {index:#x} not 'in' the dictionary")
         if kind in ("var", "domain"):
+            for key in (index, name):
+                r = od.get_variable(key, 0)
+                if r is not got:
+                    return self.bad("lookup/get_variable", f"od.get_variable({key!r}, 0) gives {r!r} instead of {got!r}")
             return self.var(got, em.top_var(o), index, 0, where)
         if got.storage_location != o["storage"]:
             self.bad("ext/storage", f"{where}: storage_location {got.storage_location!r} want {o['storage']!r}")
@@ -229,7 +233,9 @@ class _Cmp:
     def member_lookups(self, od, parent, o, sub, mname, mv):
         index, pname = o["index"], o["name"]
         routes = [("od[i][s]", lambda: od[index][sub]), ("od[i][child]", lambda: od[index][mname]),
-                  ("od[name][s]", lambda: od[pname][sub]), ("od[name][child]", lambda: od[pname][mname])]
+                  ("od[name][s]", lambda: od[pname][sub]), ("od[name][child]", lambda: od[pname][mname]),
+                  ("od.get_variable(i, s)", lambda: od.get_variable(index, sub)),
+                  ("od.get_variable(name, s)", lambda: od.get_variable(pname, sub))]
         if "." not in pname:
             routes.append(("od['Parent.Child']", lambda: od[pname + "." + mname]))
         for label, f in routes:
@@ -267,6 +273,11 @@ class _Cmp:
             ev = dict(v, name=o["names"][k - 1]) if named else v
             synthesized = not named and k not in got.subindices
             self.var(e, ev, index, k, f"{where}[{k}/{n}]", check_name=named, synthesized=synthesized)
+            gv = od.get_variable(index, k)
+            if gv is None or (gv.index, gv.subindex, gv.data_type) != (e.index, e.subindex, e.data_type) or \
+                    (not synthesized and gv is not e):
+                return self.bad("lookup/get_variable", f"{where}: od.get_variable({index:#x}, {k}) gives {gv!r} "
+                                                       f"instead of element {k} of the compact array")
             if named and not self.D:
                 self.member_lookups(od, got, o, k, ev["name"], e)
             if self.D:
